@@ -49,8 +49,8 @@ class Driver:
         rig = self.rig
         h = self.holder()
         if kind in ("reply", "failnext", "hangnext"):
-            if h is None:
-                return
+            if h is None or h[1] not in rig.cmds:
+                return          # nothing to answer, or a frame the NCP cannot make sense of (wrong layout / unknown ID): it stays unanswered
             modes = {"reply": (), "failnext": ("fail",), "hangnext": ("hang",)}[kind]
             h[3] += 1
             self.last_answered = h[0]
@@ -122,6 +122,28 @@ def run_job(job):
             if rig.gw.pending is not None:
                 d.absorb(await rig.sendres(True))
             await d.react("reply")
+    return ezsprig.run_script(version, script)
+
+
+def run_swap(job):
+    """composite methods of the version's handler reached through the EZSP object, before and after the handler is replaced (EZSP.reset()):
+    every call goes through the handler in force - its slot, its sequence numbers, its registrations"""
+    version, pre, post = job
+
+    async def script(rig):
+        d = Driver(rig)
+        for _ in range(pre):
+            await d.call("readCounters:helper")
+            await d.react("reply")
+        await d.call("nop")
+        await d.react("reply")
+        d.absorb(await rig.swap())
+        d.sent.clear()
+        for k in range(post):
+            await d.call("readCounters:helper" if k % 2 == 0 else "readAndClearCounters:helper")
+            await d.react("reply")
+        await d.call("nop")
+        await d.react("reply")
     return ezsprig.run_script(version, script)
 
 
@@ -237,6 +259,10 @@ def run(ctx: Ctx):
     tmo = int(c["CmdTimeout"])
     for i, (gap, delay) in enumerate(itertools.product((0, tmo // 2, tmo - 100, tmo + 100), (100, tmo // 2 + 1000, tmo - 100))):
         jobs.append(("w", (VERSIONS[i % len(VERSIONS)], gap, delay)))
+    # helpers of the version's handler used before and after the handler is replaced
+    for ver in VERSIONS:
+        for pre, post in ((1, 2), (0, 1), (3, 3)):
+            jobs.append(("s", (ver, pre, post)))
     metas = [{"kind": j[0], "args": j[1]} for j in jobs]
     traces = pmap(_run, jobs, chunksize=16)
     ctx.evaluations = len(traces)
@@ -263,7 +289,7 @@ def run(ctx: Ctx):
 
 
 def _run(job):
-    return run_job(job[1]) if job[0] == "e" else run_wrap(job[1]) if job[0] == "w" else run_random(job[1])
+    return run_job(job[1]) if job[0] == "e" else run_wrap(job[1]) if job[0] == "w" else run_swap(job[1]) if job[0] == "s" else run_random(job[1])
 
 
 def replay(ctx: Ctx, data):
